@@ -506,7 +506,7 @@ def _c10_lru(rep, tier: str) -> None:
 
 C14_CLAUSES = {'signature-binding', 'argument-not-converted-as-from-data', 'hook-failure-not-raised', 'post-init-run-count',
                'construction-refused', 'set-field-record', 'constructed-value', 'factory-stored-uncalled',
-               'default-shared-between-instances', 'unchecked-not-verbatim', 'must-accept', 'must-reject', 'image',
+               'default-shared-between-instances', 'unchecked-not-verbatim', 'set-only-dict', 'must-accept', 'must-reject', 'image',
                'foreign-exception'}
 CONSTRUCT_CFGS = {'quick': 'MC_Grammar_construct_q.cfg', 'thorough': 'MC_Grammar_construct_t.cfg'}
 
